@@ -583,6 +583,102 @@ theorem tickSndOne_sending (cfg : Cfg) (now : Nat) (hiv : cfg.cmdtInterval = non
   unfold tickSndOne
   simp only [e1, if_true, e2, if_false, hs, n12, Bool.false_eq_true, beq_self_eq_true, hlt, hw']
   split <;> simp [n1, n3]
+/-- one segment per pass (a minimum interval is configured): segment j goes out; after the LAST segment of the message the
+    end-of-message status follows (T5), after the last segment of the window the record waits for the CTS (T3), otherwise
+    only `next` and the deadline (now + interval) change -/
+theorem sendWindow_one (cfg : Cfg) (now iv : Nat) (hiv : cfg.cmdtInterval = some iv) (msg : List Nat) (fuel : Nat)
+    (b : Snd) (o : List Out) (j wn : Nat) (hdata : b.data = chunks60 msg) (hn : b.numSegments = Tp22.num_segments msg.length)
+    (hnext : b.next = (j : Int)) (hw : b.waitOn = some (wn : Int)) (hle : j ≤ wn) (hwn : wn < Tp22.num_segments msg.length) :
+    sendWindow cfg now (fuel + 1) b o =
+      (if j + 1 = Tp22.num_segments msg.length then
+        ({ b with next := ((j + 1 : Nat) : Int), deadline := now + Const.T22.T5, state := S_WAITING_EOM_ACK },
+         o ++ dtFrames b.src b.dest b.session msg j 1 ++
+           [.tx (Tp22.eom_status b.src b.dest b.session b.messageSize b.numSegments b.pgn 0 0)], none)
+       else if j = wn then
+        ({ b with next := ((j + 1 : Nat) : Int), state := S_WAITING_CTS, deadline := now + Const.T22.T3 },
+         o ++ dtFrames b.src b.dest b.session msg j 1, none)
+       else
+        ({ b with next := ((j + 1 : Nat) : Int), deadline := now + iv }, o ++ dtFrames b.src b.dest b.session msg j 1, none)) := by
+  obtain ⟨pgn, prio, sess, ms, np, data, st, dl, src, dst, nx, wo⟩ := b
+  simp only at hdata hn hnext hw
+  subst hdata hn hnext hw
+  have hlt : (j : Int) < ((Tp22.num_segments msg.length : Nat) : Int) := by omega
+  have hidx : pyIndex (chunks60 msg) (j : Int) = some ((msg.drop (60 * j)).take 60) := pyIndex_chunk msg j (by omega)
+  have htn : ((j : Int) + 1).toNat = j + 1 := by omega
+  have hc : ((j + 1 : Nat) : Int) = (j : Int) + 1 := by omega
+  unfold sendWindow
+  simp only [hlt, if_true, hidx, htn]
+  by_cases hlast : j + 1 = Tp22.num_segments msg.length
+  · have e : ((j : Int) + 1 == ((Tp22.num_segments msg.length : Nat) : Int)) = true := by simp; omega
+    rw [if_pos hlast]
+    simp only [e, if_true]
+    rw [hc]
+    simp only [dtFrames, List.range'_one, List.map_cons, List.map_nil]
+  · have e : ((j : Int) + 1 == ((Tp22.num_segments msg.length : Nat) : Int)) = false := by
+      simp only [beq_eq_false_iff_ne, ne_eq]; omega
+    rw [if_neg hlast]
+    simp only [e, Bool.false_eq_true, if_false]
+    by_cases hjw : j = wn
+    · subst hjw
+      have e3 : ((j : Int) == (j : Int)) = true := by simp
+      simp only [e3, if_true]
+      rw [hc]
+      simp only [dtFrames, List.range'_one, List.map_cons, List.map_nil]
+    · have e3 : ((j : Int) == (wn : Int)) = false := by
+        simp only [beq_eq_false_iff_ne, ne_eq]; omega
+      rw [if_neg hjw]
+      simp only [e3, Bool.false_eq_true, if_false, hiv]
+      rw [hc]
+      simp only [dtFrames, List.range'_one, List.map_cons, List.map_nil]
+
+/-- ORIGINATOR (FD), one due pass in SENDING_RTS_CTS with a minimum interval configured and more than one segment of the
+    window left: exactly segment j goes out, the record stays in SENDING_RTS_CTS and is due again after the interval -/
+theorem tickSndOne_partial (cfg : Cfg) (now iv : Nat) (hiv : cfg.cmdtInterval = some iv) (msg : List Nat) (b : Snd) (j wn : Nat)
+    (hs : b.state = S_SENDING_RTS_CTS) (hdata : b.data = chunks60 msg) (hn : b.numSegments = Tp22.num_segments msg.length)
+    (hnext : b.next = (j : Int)) (hw : b.waitOn = some (wn : Int)) (hlt' : j < wn) (hwn : wn < Tp22.num_segments msg.length)
+    (hd0 : b.deadline ≠ 0) (hdt : b.deadline ≤ now) :
+    tickSndOne cfg now b =
+      (some { b with next := ((j + 1 : Nat) : Int), deadline := now + iv }, dtFrames b.src b.dest b.session msg j 1, none,
+       some (now + iv), .none) := by
+  have e1 : (b.deadline != 0) = true := by simpa using hd0
+  have e2 : ¬ b.deadline > now := by omega
+  have n12 : (S_SENDING_RTS_CTS == S_WAITING_CTS) = false := by decide
+  have hlt : b.next < (b.numSegments : Int) := by rw [hnext, hn]; omega
+  have hw' := sendWindow_one cfg now iv hiv msg (↑b.numSegments - b.next).toNat b [] j wn hdata hn hnext hw (by omega) hwn
+  have x1 : ¬ j + 1 = Tp22.num_segments msg.length := by omega
+  have x2 : ¬ j = wn := by omega
+  rw [if_neg x1, if_neg x2] at hw'
+  have hge : ¬ ((b.numSegments : Int) ≤ (j : Int) + 1) := by rw [hn]; omega
+  unfold tickSndOne
+  simp only [e1, if_true, e2, if_false, hs, n12, Bool.false_eq_true, beq_self_eq_true, hlt, hw', List.nil_append]
+  simp [hge]
+
+/-- … and when only ONE segment of the window is left (j = wn) the pass does exactly what it does without an interval -/
+theorem tickSndOne_sending_last (cfg : Cfg) (now iv : Nat) (hiv : cfg.cmdtInterval = some iv) (msg : List Nat) (b : Snd) (j : Nat)
+    (hs : b.state = S_SENDING_RTS_CTS) (hdata : b.data = chunks60 msg) (hn : b.numSegments = Tp22.num_segments msg.length)
+    (hnext : b.next = (j : Int)) (hw : b.waitOn = some (j : Int)) (hwn : j < Tp22.num_segments msg.length)
+    (hd0 : b.deadline ≠ 0) (hdt : b.deadline ≤ now) :
+    tickSndOne cfg now b =
+      (if j + 1 = Tp22.num_segments msg.length then
+        (some { b with next := ((j + 1 : Nat) : Int), deadline := now + Const.T22.T5, state := S_WAITING_EOM_ACK },
+         dtFrames b.src b.dest b.session msg j (j + 1 - j) ++
+           [.tx (Tp22.eom_status b.src b.dest b.session b.messageSize b.numSegments b.pgn 0 0)], none, some (now + Const.T22.T5), .none)
+       else
+        (some { b with next := ((j + 1 : Nat) : Int), state := S_WAITING_CTS, deadline := now + Const.T22.T3 },
+         dtFrames b.src b.dest b.session msg j (j + 1 - j), none, some (now + Const.T22.T3), .none)) := by
+  have e1 : (b.deadline != 0) = true := by simpa using hd0
+  have e2 : ¬ b.deadline > now := by omega
+  have n12 : (S_SENDING_RTS_CTS == S_WAITING_CTS) = false := by decide
+  have n3 : (S_WAITING_EOM_ACK == S_SENDING_RTS_CTS) = false := by decide
+  have n1 : (S_WAITING_CTS == S_SENDING_RTS_CTS) = false := by decide
+  have hlt : b.next < (b.numSegments : Int) := by rw [hnext, hn]; omega
+  have hw' := sendWindow_one cfg now iv hiv msg (↑b.numSegments - b.next).toNat b [] j j hdata hn hnext hw (by omega) hwn
+  have h1 : j + 1 - j = 1 := by omega
+  rw [h1]
+  unfold tickSndOne
+  simp only [e1, if_true, e2, if_false, hs, n12, Bool.false_eq_true, beq_self_eq_true, hlt, hw', List.nil_append]
+  split <;> simp [n1, n3]
+
 /-! ### responder (FD), one in-order FD.TP.DT frame of a destination-specific session, exactly -/
 
 /-- the receive record holds the first `j` segments of `msg`; the next CTS is due when segment number `border` arrives -/
@@ -1054,9 +1150,9 @@ theorem feed_last (msg : List Nat) (pgn mr : Nat) (mid : MessageId) (dest sessio
   rw [txFrames_append, deliveries_append, a1, a2, o1]
   exact ⟨by simp [txFrames], by simp [deliveries], r', hr', e1, e2, e3, e4⟩
 
-/-- ONE ROUND (FD connection mode, no minimum interval) keeps the session invariant with a whole further window
-    transferred, or completes the transfer -/
-theorem c02_rtscts_round (cfgO cfgR : Cfg) (accO accR : Nat → Bool) (hiv : cfgO.cmdtInterval = none) (msg : List Nat) (i sa da pgn mr : Nat)
+/-- a round in which the pass sends the WHOLE rest of the granted window (always so without a minimum interval; with one,
+    when a single segment of the window is left) -/
+theorem round_full (cfgO cfgR : Cfg) (accO accR : Nat → Bool) (msg : List Nat) (i sa da pgn mr : Nat)
     (hpos : 0 < msg.length) (hlen : msg.length < 16777216) (hp : pgn < 16777216) (hi16 : i < 16)
     (hsa : sa < 256) (hda : da < 256) (hdne : da ≠ 255) (hsne : sa ≠ 255) (haO : accO sa = true) (haR : accR da = true)
     (hmr : 0 < mr) (hmr256 : mr < 256) (hmrO : mr ≤ cfgO.maxCmdt)
@@ -1064,7 +1160,15 @@ theorem c02_rtscts_round (cfgO cfgR : Cfg) (accO accR : Nat → Bool) (hiv : cfg
     (hj : j ≤ wn) (hwn : wn < Tp22.num_segments msg.length)
     (hb : sO.snd.get? (Tp22.buffer_hash i sa da) = some b) (hr : sR.rcv.get? (Tp22.buffer_hash i sa da) = some r)
     (ob : OInv msg i sa da pgn j wn b) (rb : RInv msg pgn j (wn + 1) mr r)
-    (hdue : b.deadline ≤ x.1) (htO : 0 < x.2.2) :
+    (htO : 0 < x.2.2)
+    (hpass0 : tickSndOne cfgO x.1 b =
+      (if wn + 1 = Tp22.num_segments msg.length then
+        (some { b with next := ((wn + 1 : Nat) : Int), deadline := x.1 + Const.T22.T5, state := S_WAITING_EOM_ACK },
+         dtFrames b.src b.dest b.session msg j (wn + 1 - j) ++
+           [.tx (Tp22.eom_status b.src b.dest b.session b.messageSize b.numSegments b.pgn 0 0)], none, some (x.1 + Const.T22.T5), .none)
+       else
+        (some { b with next := ((wn + 1 : Nat) : Int), state := S_WAITING_CTS, deadline := x.1 + Const.T22.T3 },
+         dtFrames b.src b.dest b.session msg j (wn + 1 - j), none, some (x.1 + Const.T22.T3), .none))) :
     ∃ sO' sR' oR oO, round cfgO cfgR accO accR i sa da x sO sR = some (sO', sR', oR, oO, .none) ∧
       ((∃ wn' b' r', wn < wn' ∧ wn' < Tp22.num_segments msg.length ∧
           sO'.snd.get? (Tp22.buffer_hash i sa da) = some b' ∧ sR'.rcv.get? (Tp22.buffer_hash i sa da) = some r' ∧
@@ -1078,7 +1182,6 @@ theorem c02_rtscts_round (cfgO cfgR : Cfg) (accO accR : Nat → Bool) (hiv : cfg
     have := (num_segments_spec msg.length).2 hpos; omega
   obtain ⟨m1, m2, m3, m4⟩ := mid_facts sa da hsa hda
   obtain ⟨n1, n2, n3, n4⟩ := mid_facts da sa hda hsa
-  have hpass0 := tickSndOne_sending cfgO x.1 hiv msg b j wn ob.hstate ob.hdata ob.hnum ob.hnext ob.hwait hj hwn ob.hdl hdue
   have hrR : sR.rcv.get? (Tp22.buffer_hash i (midDt sa da).source_address da) = some r := by rw [m1]; exact hr
   obtain ⟨_, _, c3⟩ := Dll21.tp_id_parse 7 77 sa da (by omega) (by omega) hsa hda
   by_cases hend : wn + 1 = Tp22.num_segments msg.length
@@ -1202,6 +1305,107 @@ theorem c02_rtscts_round (cfgO cfgR : Cfg) (accO accR : Nat → Bool) (hiv : cfg
       rw [← e]; exact f4
     · rfl
     · rw [ha']; simp [deliveries]
+/-- a round in which a minimum interval holds the rest of the window back: ONE segment goes out and is stored, nothing is
+    answered, the originator is due again after the interval -/
+theorem round_partial (cfgO cfgR : Cfg) (accO accR : Nat → Bool) (iv : Nat) (hiv : cfgO.cmdtInterval = some iv) (msg : List Nat)
+    (i sa da pgn mr : Nat) (hpos : 0 < msg.length) (hlen : msg.length < 16777216) (hi16 : i < 16)
+    (hsa : sa < 256) (hda : da < 256) (hdne : da ≠ 255) (haR : accR da = true)
+    (x : Nat × Nat × Nat) (sO sR : St) (j wn : Nat) (b : Snd) (r : Rcv)
+    (hj : j < wn) (hwn : wn < Tp22.num_segments msg.length)
+    (hb : sO.snd.get? (Tp22.buffer_hash i sa da) = some b) (hr : sR.rcv.get? (Tp22.buffer_hash i sa da) = some r)
+    (ob : OInv msg i sa da pgn j wn b) (rb : RInv msg pgn j (wn + 1) mr r)
+    (hdue : b.deadline ≤ x.1) (ht : 0 < x.1) :
+    ∃ sO' sR' oR oO, round cfgO cfgR accO accR i sa da x sO sR = some (sO', sR', oR, oO, .none) ∧
+      ∃ b' r', sO'.snd.get? (Tp22.buffer_hash i sa da) = some b' ∧ sR'.rcv.get? (Tp22.buffer_hash i sa da) = some r' ∧
+        OInv msg i sa da pgn (j + 1) wn b' ∧ RInv msg pgn (j + 1) (wn + 1) mr r' ∧ b'.deadline = x.1 + iv ∧
+        deliveries oR = [] ∧ deliveries oO = [] := by
+  have h24 : Tp22.num_segments msg.length < 16777216 := by
+    have := (num_segments_spec msg.length).2 hpos; omega
+  obtain ⟨m1, m2, m3, m4⟩ := mid_facts sa da hsa hda
+  have hpass0 := tickSndOne_partial cfgO x.1 iv hiv msg b j wn ob.hstate ob.hdata ob.hnum ob.hnext ob.hwait hj hwn ob.hdl hdue
+  let bP : Snd := { b with next := ((j + 1 : Nat) : Int), deadline := x.1 + iv, src := sa, dest := da, session := i }
+  have hpass : tickSndOne cfgO x.1 b = (some bP, dtFrames sa da i msg j 1, none, some (x.1 + iv), .none) := by
+    rw [hpass0]; simp only [ob.hsrc, ob.hdest, ob.hsess]; rfl
+  let sO1 : St := sndApply sO (Tp22.buffer_hash i sa da) (some bP)
+  let q := rxAll cfgR accR x.2.1 sR (txFrames (dtFrames sa da i msg j 1))
+  let a := rxAll cfgO accO x.2.2 sO1 (txFrames q.2)
+  have hround : round cfgO cfgR accO accR i sa da x sO sR = some (a.1, q.1, q.2, a.2, .none) := by
+    simp only [round, hb, hpass]; rfl
+  have hq : q = feedDt sR (midDt sa da) da ((List.replicate 1 x.2.1).zip (dtDatas sa da i msg j 1)) := by
+    show rxAll cfgR accR x.2.1 sR (txFrames (dtFrames sa da i msg j 1)) = _
+    rw [dtFrames, txFrames_map]
+    exact rxAll_dt cfgR accR x.2.1 sa da i msg hsa hda (Or.inr haR) j 1 sR
+  have hrR : sR.rcv.get? (Tp22.buffer_hash i (midDt sa da).source_address da) = some r := by rw [m1]; exact hr
+  have hR := feed_mid msg pgn (wn + 1) mr (midDt sa da) da i sa x.2.1 hpos hdne hi16 h24 1 j sR r (by omega) (by omega) hrR rb
+  simp only at hR
+  rw [← hq, m1] at hR
+  obtain ⟨f1, f2, r', f3, f4⟩ := hR
+  have ha : a = (sO1, []) := by
+    show rxAll cfgO accO x.2.2 sO1 (txFrames q.2) = _
+    rw [f1]; rfl
+  refine ⟨a.1, q.1, q.2, a.2, hround, bP, r', ?_, f3, ?_, f4, rfl, f2, ?_⟩
+  · rw [ha]; exact PyDict.get?_set_self _ _ _
+  · exact ⟨ob.hdata, ob.hnum, ob.hsize, rfl, ob.hwait, ob.hstate, by show x.1 + iv ≠ 0; omega, rfl, rfl, rfl, ob.hpgn⟩
+  · rw [ha]; rfl
+
+/-- ONE ROUND (FD connection mode, with or without a minimum packet interval) keeps the session invariant with MORE
+    segments transferred, or completes the transfer -/
+theorem c02_rtscts_round (cfgO cfgR : Cfg) (accO accR : Nat → Bool) (msg : List Nat) (i sa da pgn mr : Nat)
+    (hpos : 0 < msg.length) (hlen : msg.length < 16777216) (hp : pgn < 16777216) (hi16 : i < 16)
+    (hsa : sa < 256) (hda : da < 256) (hdne : da ≠ 255) (hsne : sa ≠ 255) (haO : accO sa = true) (haR : accR da = true)
+    (hmr : 0 < mr) (hmr256 : mr < 256) (hmrO : mr ≤ cfgO.maxCmdt)
+    (x : Nat × Nat × Nat) (sO sR : St) (j wn : Nat) (b : Snd) (r : Rcv)
+    (hj : j ≤ wn) (hwn : wn < Tp22.num_segments msg.length)
+    (hb : sO.snd.get? (Tp22.buffer_hash i sa da) = some b) (hr : sR.rcv.get? (Tp22.buffer_hash i sa da) = some r)
+    (ob : OInv msg i sa da pgn j wn b) (rb : RInv msg pgn j (wn + 1) mr r)
+    (hdue : b.deadline ≤ x.1) (ht : 0 < x.1) (htO : 0 < x.2.2) :
+    ∃ sO' sR' oR oO, round cfgO cfgR accO accR i sa da x sO sR = some (sO', sR', oR, oO, .none) ∧
+      ((∃ j' wn' b' r', j < j' ∧ j' ≤ wn' ∧ wn' < Tp22.num_segments msg.length ∧
+          sO'.snd.get? (Tp22.buffer_hash i sa da) = some b' ∧ sR'.rcv.get? (Tp22.buffer_hash i sa da) = some r' ∧
+          OInv msg i sa da pgn j' wn' b' ∧ RInv msg pgn j' (wn' + 1) mr r' ∧
+          b'.deadline ≤ max x.2.2 (x.1 + cfgO.cmdtInterval.getD 0) ∧ deliveries oR = [] ∧ deliveries oO = []) ∨
+       (deliveries oR = [(7, pgn, sa, da, msg)] ∧ sR'.rcv.get? (Tp22.buffer_hash i sa da) = none ∧
+        deliveries oO = [(7, pgn, da, sa, (Tp22.eom_ack da sa i msg.length (Tp22.num_segments msg.length) pgn).data)] ∧
+        ∃ bf, sO'.snd.get? (Tp22.buffer_hash i sa da) = some bf ∧ bf.state = S_EOM_ACK_RECEIVED ∧ bf.deadline = x.2.2 ∧
+          bf.session = i)) := by
+  have lift : ∀ (hp0 : tickSndOne cfgO x.1 b =
+      (if wn + 1 = Tp22.num_segments msg.length then
+        (some { b with next := ((wn + 1 : Nat) : Int), deadline := x.1 + Const.T22.T5, state := S_WAITING_EOM_ACK },
+         dtFrames b.src b.dest b.session msg j (wn + 1 - j) ++
+           [.tx (Tp22.eom_status b.src b.dest b.session b.messageSize b.numSegments b.pgn 0 0)], none, some (x.1 + Const.T22.T5), .none)
+       else
+        (some { b with next := ((wn + 1 : Nat) : Int), state := S_WAITING_CTS, deadline := x.1 + Const.T22.T3 },
+         dtFrames b.src b.dest b.session msg j (wn + 1 - j), none, some (x.1 + Const.T22.T3), .none))),
+      ∃ sO' sR' oR oO, round cfgO cfgR accO accR i sa da x sO sR = some (sO', sR', oR, oO, .none) ∧
+      ((∃ j' wn' b' r', j < j' ∧ j' ≤ wn' ∧ wn' < Tp22.num_segments msg.length ∧
+          sO'.snd.get? (Tp22.buffer_hash i sa da) = some b' ∧ sR'.rcv.get? (Tp22.buffer_hash i sa da) = some r' ∧
+          OInv msg i sa da pgn j' wn' b' ∧ RInv msg pgn j' (wn' + 1) mr r' ∧
+          b'.deadline ≤ max x.2.2 (x.1 + cfgO.cmdtInterval.getD 0) ∧ deliveries oR = [] ∧ deliveries oO = []) ∨
+       (deliveries oR = [(7, pgn, sa, da, msg)] ∧ sR'.rcv.get? (Tp22.buffer_hash i sa da) = none ∧
+        deliveries oO = [(7, pgn, da, sa, (Tp22.eom_ack da sa i msg.length (Tp22.num_segments msg.length) pgn).data)] ∧
+        ∃ bf, sO'.snd.get? (Tp22.buffer_hash i sa da) = some bf ∧ bf.state = S_EOM_ACK_RECEIVED ∧ bf.deadline = x.2.2 ∧
+          bf.session = i)) := by
+    intro hp0
+    obtain ⟨sO', sR', oR, oO, h1, h2⟩ := round_full cfgO cfgR accO accR msg i sa da pgn mr hpos hlen hp hi16 hsa hda hdne hsne haO haR
+      hmr hmr256 hmrO x sO sR j wn b r hj hwn hb hr ob rb htO hp0
+    refine ⟨sO', sR', oR, oO, h1, ?_⟩
+    rcases h2 with ⟨wn', b', r', c1, c2, c3, c4, c5, c6, c7, c8, c9⟩ | h2
+    · exact Or.inl ⟨wn + 1, wn', b', r', by omega, by omega, c2, c3, c4, c5, c6, by rw [c7]; exact Nat.le_max_left _ _, c8, c9⟩
+    · exact Or.inr h2
+  cases hiv : cfgO.cmdtInterval with
+  | none =>
+    rw [hiv] at lift
+    exact lift (tickSndOne_sending cfgO x.1 hiv msg b j wn ob.hstate ob.hdata ob.hnum ob.hnext ob.hwait hj hwn ob.hdl hdue)
+  | some iv =>
+    by_cases hjw : j = wn
+    · subst hjw
+      rw [hiv] at lift
+      exact lift (tickSndOne_sending_last cfgO x.1 iv hiv msg b j ob.hstate ob.hdata ob.hnum ob.hnext ob.hwait hwn ob.hdl hdue)
+    · obtain ⟨sO', sR', oR, oO, h1, b', r', c1, c2, c3, c4, c5, c6, c7⟩ := round_partial cfgO cfgR accO accR iv hiv msg i sa da pgn mr
+        hpos hlen hi16 hsa hda hdne haR x sO sR j wn b r (by omega) hwn hb hr ob rb hdue ht
+      exact ⟨sO', sR', oR, oO, h1, Or.inl ⟨j + 1, wn, b', r', by omega, by omega, hwn, c1, c2, c3, c4,
+        by rw [c5]; simp only [Option.getD_some]; exact Nat.le_max_right _ _, c6, c7⟩⟩
+
 /-- rounds until the list ends, the originator's record is gone, or a round released the session number -/
 def run (cfgO cfgR : Cfg) (accO accR : Nat → Bool) (i sa da : Nat) : List (Nat × Nat × Nat) → St → St → St × St × List Out × List Out × Release
   | [], sO, sR => (sO, sR, [], [], .none)
@@ -1215,9 +1419,9 @@ def run (cfgO cfgR : Cfg) (accO accR : Nat → Bool) (i sa da : Nat) : List (Nat
 
 /-- every round's pass finds the record due: not before the deadline `d`, the next one not before the answers of this
     round were handled -/
-def Sched : Nat → List (Nat × Nat × Nat) → Prop
+def Sched (cfg : Cfg) : Nat → List (Nat × Nat × Nat) → Prop
   | _, [] => True
-  | d, x :: xs => d ≤ x.1 ∧ 0 < x.2.2 ∧ Sched x.2.2 xs
+  | d, x :: xs => d ≤ x.1 ∧ 0 < x.1 ∧ 0 < x.2.2 ∧ Sched cfg (max x.2.2 (x.1 + cfg.cmdtInterval.getD 0)) xs
 
 /-- the round after the acknowledgement: the record is deleted and its number goes back to the RTS/CTS pool -/
 theorem round_final (cfgO cfgR : Cfg) (accO accR : Nat → Bool) (i sa da : Nat) (x : Nat × Nat × Nat) (sO sR : St) (b : Snd)
@@ -1238,14 +1442,14 @@ theorem round_final (cfgO cfgR : Cfg) (accO accR : Nat → Bool) (i sa da : Nat)
 /-- THE SESSION RUNS TO COMPLETION (FD connection mode): from any state of the invariant, any schedule of due rounds that
     is long enough delivers the message exactly once, reports exactly one acknowledgement, leaves no record on either
     side and returns the session number to the RTS/CTS pool -/
-theorem run_delivers (cfgO cfgR : Cfg) (accO accR : Nat → Bool) (hiv : cfgO.cmdtInterval = none) (msg : List Nat) (i sa da pgn mr : Nat)
+theorem run_delivers (cfgO cfgR : Cfg) (accO accR : Nat → Bool) (msg : List Nat) (i sa da pgn mr : Nat)
     (hpos : 0 < msg.length) (hlen : msg.length < 16777216) (hp : pgn < 16777216) (hi16 : i < 16)
     (hsa : sa < 256) (hda : da < 256) (hdne : da ≠ 255) (hsne : sa ≠ 255) (haO : accO sa = true) (haR : accR da = true)
     (hmr : 0 < mr) (hmr256 : mr < 256) (hmrO : mr ≤ cfgO.maxCmdt) (m : Nat) :
     ∀ (xs : List (Nat × Nat × Nat)) (sO sR : St) (j wn d : Nat) (b : Snd) (r : Rcv),
     Tp22.num_segments msg.length - j ≤ m → j ≤ wn → wn < Tp22.num_segments msg.length →
     sO.snd.get? (Tp22.buffer_hash i sa da) = some b → sR.rcv.get? (Tp22.buffer_hash i sa da) = some r →
-    OInv msg i sa da pgn j wn b → RInv msg pgn j (wn + 1) mr r → b.deadline ≤ d → Sched d xs → m + 1 ≤ xs.length →
+    OInv msg i sa da pgn j wn b → RInv msg pgn j (wn + 1) mr r → b.deadline ≤ d → Sched cfgO d xs → m + 1 ≤ xs.length →
     let q := run cfgO cfgR accO accR i sa da xs sO sR
     deliveries q.2.2.1 = [(7, pgn, sa, da, msg)] ∧ q.2.1.rcv.get? (Tp22.buffer_hash i sa da) = none ∧
     deliveries q.2.2.2.1 = [(7, pgn, da, sa, (Tp22.eom_ack da sa i msg.length (Tp22.num_segments msg.length) pgn).data)] ∧
@@ -1259,12 +1463,12 @@ theorem run_delivers (cfgO cfgR : Cfg) (accO accR : Nat → Bool) (hiv : cfgO.cm
       | nil => simp at hxs
       | cons x xs => exact ⟨x, xs, rfl⟩
     simp only [List.length_cons, Nat.add_le_add_iff_right] at hxs
-    obtain ⟨s1, s2, s3⟩ := hsched
-    obtain ⟨sO', sR', oR, oO, hround, hcase⟩ := c02_rtscts_round cfgO cfgR accO accR hiv msg i sa da pgn mr hpos hlen hp hi16 hsa hda hdne hsne
-      haO haR hmr hmr256 hmrO x sO sR j wn b r hj hwn hb hr ob rb (by omega) s2
+    obtain ⟨s1, s1', s2, s3⟩ := hsched
+    obtain ⟨sO', sR', oR, oO, hround, hcase⟩ := c02_rtscts_round cfgO cfgR accO accR msg i sa da pgn mr hpos hlen hp hi16 hsa hda hdne hsne
+      haO haR hmr hmr256 hmrO x sO sR j wn b r hj hwn hb hr ob rb (by omega) s1' s2
     simp only [run, hround]
-    rcases hcase with ⟨wn', b', r', c1, c2, c3, c4, c5, c6, c7, c8, c9⟩ | ⟨c1, c2, c3, bf, c4, c5, c6, c7⟩
-    · have := ih xs sO' sR' (wn + 1) wn' x.2.2 b' r' (by omega) (by omega) c2 c3 c4 c5 c6 (by omega) s3 hxs
+    rcases hcase with ⟨j', wn', b', r', c0, c1, c2, c3, c4, c5, c6, c7, c8, c9⟩ | ⟨c1, c2, c3, bf, c4, c5, c6, c7⟩
+    · have := ih xs sO' sR' j' wn' _ b' r' (by omega) c1 c2 c3 c4 c5 c6 c7 s3 hxs
       simp only at this
       obtain ⟨i1, i2, i3, i4, i5⟩ := this
       rw [deliveries_append, deliveries_append, c8, c9, List.nil_append, List.nil_append]
@@ -1273,7 +1477,7 @@ theorem run_delivers (cfgO cfgR : Cfg) (accO accR : Nat → Bool) (hiv : cfgO.cm
         cases xs with
         | nil => simp at hxs
         | cons x xs => exact ⟨x, xs, rfl⟩
-      obtain ⟨t1, _, _⟩ := s3
+      obtain ⟨t1, _, _, _⟩ := s3
       have hfin := round_final cfgO cfgR accO accR i sa da x' sO' sR' bf c4 c5 (by rw [c6]; omega) (by rw [c6]; omega) c7
       simp only [run, hfin, List.append_nil]
       exact ⟨c1, c2, c3, PyDict.get?_erase_self _ _, trivial⟩
@@ -1312,24 +1516,24 @@ theorem sendPgn_rts (cfg : Cfg) (s : St) (now dp pf ps prio sa : Nat) (msg : Lis
   | some r =>
     obtain ⟨i, pool⟩ := r
     exact ⟨i, pool, rfl, by simp [rtsRec, rtsPgn]⟩
-/-- FD CONNECTION MODE FROM END TO END (J1939-22, handlers atomic, no timeouts, no minimum packet interval configured at
-    the originator): an accepted destination-specific message of 61 … 2^24−1 bytes takes session number i < 8 from the
-    RTS/CTS pool; the responder (no record for (i, pair), any other state, own window limit ≥ 1) receives the RTS through
-    `notify`, the originator the CTS, and then ROUNDS follow — originator pass, the responder receives that pass's frames
-    (FD.TP.DT segments and, at the end, the end-of-message status) through `notify`, the originator receives the answers
-    (CTS for the next window, or the end-of-message acknowledgement) through `notify` — under ANY schedule that finds the
-    record due each time, whatever the two window limits.  After at most ⌈len/60⌉ + 1 rounds: the responder has delivered
-    the message EXACTLY ONCE — announced PGN, originator's address, its own address, byte-identical payload —, the
-    originator has reported exactly one acknowledgement, neither side keeps a session record, and the session number has
-    been returned to the RTS/CTS pool -/
+/-- FD CONNECTION MODE FROM END TO END (J1939-22, handlers atomic, no timeouts): an accepted destination-specific message
+    of 61 … 2^24−1 bytes takes session number i < 8 from the RTS/CTS pool; the responder (no record for (i, pair), any
+    other state, own window limit ≥ 1) receives the RTS through `notify`, the originator the CTS, and then ROUNDS follow —
+    originator pass, the responder receives that pass's frames (FD.TP.DT segments and, at the end, the end-of-message
+    status) through `notify`, the originator receives the answers (CTS for the next window, or the end-of-message
+    acknowledgement) through `notify` — under ANY schedule that finds the record due each time (`Sched`), whatever the
+    two window limits and the originator's minimum packet interval (whole windows per pass, or one segment per pass).
+    After at most ⌈len/60⌉ + 1 rounds: the responder has delivered the message EXACTLY ONCE — announced PGN, originator's
+    address, its own address, byte-identical payload —, the originator has reported exactly one acknowledgement, neither
+    side keeps a session record, and the session number has been returned to the RTS/CTS pool -/
 theorem c02_rtscts_end_to_end (cfgO cfgR : Cfg) (accO accR : Nat → Bool) (sO sR : St) (t0 tR tO dp pf prio sa da tl ff : Nat) (msg : List Nat)
-    (hiv : cfgO.cmdtInterval = none) (hcO : 0 < cfgO.maxCmdt) (hcO256 : cfgO.maxCmdt < 256) (hcR : 0 < cfgR.maxCmdt)
+    (hcO : 0 < cfgO.maxCmdt) (hcO256 : cfgO.maxCmdt < 256) (hcR : 0 < cfgR.maxCmdt)
     (hl : 60 < msg.length) (hlen : msg.length < 16777216) (hprio : prio < 8)
     (hsa : sa < 256) (hda : da < 256) (hsne : sa ≠ 255) (haO : accO sa = true) (haR : accR da = true)
     (hb : (da == Const.Addr.GLOBAL || PGN.is_pdu2_format (PGN.ofFields 0 pf da)) = false)
     (hacc : (sendPgn cfgO sO t0 dp pf da prio sa msg tl ff).2 = true) (hpool : sO.rtsPool.length = 8)
     (hfree : ∀ i, sR.rcv.contains (Tp22.buffer_hash i sa da) = false)
-    (htO : 0 < tO) (xs : List (Nat × Nat × Nat)) (hsched : Sched tO xs) (hxs : Tp22.num_segments msg.length + 1 ≤ xs.length) :
+    (htO : 0 < tO) (xs : List (Nat × Nat × Nat)) (hsched : Sched cfgO tO xs) (hxs : Tp22.num_segments msg.length + 1 ≤ xs.length) :
     ∃ i, i < 8 ∧
       let r0 := (sendPgn cfgO sO t0 dp pf da prio sa msg tl ff).1
       let a1 := rxAll cfgR accR tR sR (txFrames r0.outs)
@@ -1410,7 +1614,7 @@ theorem c02_rtscts_end_to_end (cfgO cfgR : Cfg) (accO accR : Nat → Bool) (sO s
     show ((processCm cfgO r0.st tO (midCm da sa) sa (Tp22.cts da sa i g (0 + 1) (rtsPgn dp pf da)).data).st,
       (processCm cfgO r0.st tO (midCm da sa) sa (Tp22.cts da sa i g (0 + 1) (rtsPgn dp pf da)).data).outs ++ []) = _
     rw [hcts]
-  have hrun := run_delivers cfgO cfgR accO accR hiv msg i sa da (rtsPgn dp pf da) g hpos hlen (rtsPgn_lt _ _ _) (by omega) hsa hda hdne hsne
+  have hrun := run_delivers cfgO cfgR accO accR msg i sa da (rtsPgn dp pf da) g hpos hlen (rtsPgn_lt _ _ _) (by omega) hsa hda hdne hsne
     haO haR hg0 (by omega) hgO (Tp22.num_segments msg.length) xs a2.1 a1.1 0 (g - 1) tO bN rR (by omega) (by omega) (by omega)
     (by rw [ha2]; exact PyDict.get?_set_self _ _ _) (by rw [ha1]; exact PyDict.get?_set_self _ _ _)
     ⟨rfl, rfl, rfl, rfl, by show some (((0 + g - 1 : Nat) : Int)) = some (((g - 1 : Nat) : Int)); congr 2; omega, rfl,
@@ -1427,7 +1631,7 @@ theorem c02_rtscts_end_to_end (cfgO cfgR : Cfg) (accO accR : Nat → Bool) (sO s
     130-byte PDU2 broadcast) on empty stacks, four rounds / passes 10 ms apart -/
 example : (sendPgn {} {} 1000 0 208 0x90 6 0x80 (List.replicate 130 7) 0 3).2 = true ∧
     (0x90 == Const.Addr.GLOBAL || PGN.is_pdu2_format (PGN.ofFields 0 208 0x90)) = false ∧
-    Sched 3000 [(10000, 10001, 10002), (20000, 20001, 20002), (30000, 30001, 30002), (40000, 40001, 40002)] ∧
+    Sched {} 3000 [(10000, 10001, 10002), (20000, 20001, 20002), (30000, 30001, 30002), (40000, 40001, 40002)] ∧
     Tp22.num_segments (List.replicate 130 7).length + 1 ≤ 4 ∧
     (sendPgn {} {} 1000 0 254 202 6 0x80 (List.replicate 130 7) 0 3).2 = true ∧
     Due {} (1000 + ({} : Cfg).bamInterval) [11000, 21000, 31000, 41000] := by
